@@ -299,6 +299,75 @@ func adapterForwardingRule(c *Ctx, rule string) {
 					okArgs = false
 					detail = append(detail, "the call's result does not reach the return values")
 				}
+				// every return hands back what the wrapped call returned: each result derives from
+				// the call or is a zero constant, and a nil error is returned only where the call's
+				// error was nil (an adapter that turns a failed revision-checked write into a
+				// success breaks compare-and-set for every caller)
+				errIdx := call.Call.Signature().Results().Len() - 1
+				callErrNil := func(gs []Lit) bool {
+					return hasLit(gs, true, func(s *Sym) bool {
+						if s.Op != "bin" || s.Name != "==" || len(s.Args) != 2 {
+							return false
+						}
+						for i := 0; i < 2; i++ {
+							if s.Args[i].String() == "nil" {
+								if ex, ok := s.Args[1-i].V.(*ssa.Extract); ok && ex.Tuple == ssa.Value(call) && ex.Index == errIdx {
+									return true
+								}
+								if s.Args[1-i].V == ssa.Value(call) && errIdx == 0 {
+									return true
+								}
+							}
+						}
+						return false
+					})
+				}
+				for _, b := range liveBlocks(f) {
+					ret, ok := b.Instrs[len(b.Instrs)-1].(*ssa.Return)
+					if !ok || b == f.Recover {
+						continue
+					}
+					for i := range ret.Results {
+						v := returnValue(ret, i)
+						isErr := isErrorType(f.Signature.Results().At(i).Type())
+						if derivesFrom(v, call, 0) {
+							continue
+						}
+						k, isConst := v.(*ssa.Const)
+						zero := isConst && (k.Value == nil || k.Value.ExactString() == "0" || k.Value.ExactString() == `""` || k.Value.ExactString() == "false")
+						switch {
+						case !zero:
+							okArgs = false
+							detail = append(detail, fmt.Sprintf("result #%d returned at %s (%s) does not come from the wrapped call", i, c.posOf(ret), clip(m.Sym.Of(v).String(), 80)))
+						case isErr && isErrorType(call.Call.Signature().Results().At(errIdx).Type()) && !callErrNil(m.Guards(b)):
+							okArgs = false
+							detail = append(detail, fmt.Sprintf("a nil error is returned at %s although the wrapped call's error is not known to be nil there", c.posOf(ret)))
+						}
+					}
+				}
+				// no other operation of the wrapped object in the helpers this method calls
+				for _, h := range sortedFns(m.staticReach(f, true)) {
+					if h == f || h.Signature.Recv() == nil || len(h.Params) == 0 {
+						continue
+					}
+					eachInstr(h, func(in ssa.Instruction) {
+						c2, ok := in.(*ssa.Call)
+						if !ok {
+							return
+						}
+						var recv ssa.Value
+						name := ""
+						if c2.Call.IsInvoke() {
+							name, recv = c2.Call.Method.Name(), c2.Call.Value
+						} else if sc := c2.Call.StaticCallee(); sc != nil && sc.Signature.Recv() != nil && len(c2.Call.Args) > 0 {
+							name, recv = sc.Name(), c2.Call.Args[0]
+						}
+						if recv != nil && recvIsFieldOf(recv, h.Params[0]) && types.Identical(h.Params[0].Type(), f.Params[0].Type()) {
+							okArgs = false
+							detail = append(detail, fmt.Sprintf("helper %s performs another operation (%s) on the wrapped object", shortFn(h), name))
+						}
+					})
+				}
 				c.check(okArgs, rule, key, call, "forwards (%s) to the wrapped %s; %s", strings.Join(paramNames(params), ", "), meth, strings.Join(detail, "; "))
 			}
 		}
